@@ -92,12 +92,13 @@ MANIFEST = dict(
           "find_penetration_info_terminates, and segment_contact_asIs_counterexample (the "
           "unchanged code reports a contact position outside a collider); the model is compared step-wise with every "
           "module-level function of distance3d.mpr on recorded traces and end-to-end with trace-fed supports; rigorous "
-          "two-sided depth oracle on the real code."),
+          "two-sided depth oracle on the real code. " 
+          "Link theorems (regenerated from today's source by py2lean on every run, D3/Gen/Link08.lean) tie mpr._encapsulates_origin and mpr._find_penetration_touch to the model by rfl. "),
     note=("trusted: Lean kernel + Mathlib, axioms propext/Classical.choice/Quot.sound; exact-real semantics; support "
           "oracle contract (C03) assumed; partial: iteration-cap exit, degenerate final portal, non-negativity of the "
           "barycentric weights, termination of the uncapped _refine_portal; two known findings on the contact position; "
           "one fixed finding (F-mpr-degenerate-portal-nan, 045c18e) replayed first on every run."),
-    technique="Lean 4 proof (S2, abstract support oracle) on hand-written model + step-wise trace correspondence",
+    technique="Lean 4 proof (S2, abstract support oracle) on hand-written model + step-wise trace correspondence + py2lean-regenerated kernels linked to the model by theorem",
     design="§7 C08")
 LEAN_TARGETS = []
 
